@@ -1,5 +1,5 @@
 \* every shape of length <= 2, every call in every reachable state; one shortest history per (state, call) via VIEW
-CONSTANTS MaxLen = 2  K = 2  Mod = 65536  Apis = {"cppw", "cppr", "pyw", "pyr"}
+CONSTANTS MaxLen = 2  K = 2  Mod = 65536  Apis = {"cppw", "cppr", "pyw", "pyr"}  Ctx = 2
 INIT Init
 NEXT Next
 INVARIANTS Refines Export
